@@ -914,11 +914,18 @@ func c12Judge(r *verifkit.Run, w *verifkit.Worker, e *c12Event, firstErr error, 
 		bad("accepted-event-unique-items", "an event without uniques added items to the unique sketch", got)
 	}
 	// percentile digest: when one exists its weight is the row's count
-	denormal := eCount < 2.3e-308
+	// (the digest is fed value by value with weight·count/total: that product is only meaningful
+	// while count/total and every weight stay well inside the float range)
+	denormal := eCount < 1e-150
+	totalW := float64(len(e.values))
 	for _, h := range e.hist {
-		if h[1] > 0 && h[1] < 2.3e-308 {
+		totalW += h[1]
+		if h[1] > 0 && h[1] < 1e-150 {
 			denormal = true
 		}
+	}
+	if totalW > 0 && (eCount/totalW < 1e-150 || eCount/totalW > 1e150) {
+		denormal = true
 	}
 	if denormal && (ra.hasDigest || e.metric.kind == format.MetricKindMixedPercentiles || e.metric.kind == format.MetricKindValuePercentiles) {
 		// weights below the normal float range: count/total overflows or vanishes inside the digest
